@@ -9,8 +9,10 @@ import (
 	"github.com/influxdata/influxql"
 )
 
-// c10: render a condition, split it with the real ConditionExpr, record the range as
-// symbolic instants and the residual's truth table (real EvalBool).  No verdicts here.
+// c10: render a condition, split it with the real ConditionExpr (three times on the same
+// parsed expression and once on a fresh parse), record every range as symbolic instants, the
+// residual's truth table (real EvalBool) and the printed condition around every call.  No
+// verdicts here.
 //
 // Symbolic instants (DESIGN.md 3.3): {"k": base, "d": offset in ns}.  The mapping from
 // bases to real timestamps lives only in this file:
@@ -160,8 +162,12 @@ func c10Valuations() []influxql.MapValuer {
 	return out
 }
 
-// c10Split records ConditionExpr(cond, NowValuer) into o.
-func c10Split(o M, cond influxql.Expr, m *c10Mapping) {
+// c10Split records ConditionExpr(cond, NowValuer) into o (with the projected residual AST).
+func c10Split(o M, cond influxql.Expr, m *c10Mapping) { c10SplitInto(o, cond, m, true) }
+
+// c10SplitInto records one call of ConditionExpr(cond, NowValuer) into o; withAST adds the
+// projection and the text of the residual (only used for the drift report).
+func c10SplitInto(o M, cond influxql.Expr, m *c10Mapping, withAST bool) {
 	var res influxql.Expr
 	var tr influxql.TimeRange
 	var err error
@@ -185,8 +191,10 @@ func c10Split(o M, cond influxql.Expr, m *c10Mapping) {
 		o["nores"] = true
 		return
 	}
-	o["res"] = project(res)
-	o["resstr"] = res.String()
+	if withAST {
+		o["res"] = project(res)
+		o["resstr"] = res.String()
+	}
 	rt := make([]interface{}, 0, 8)
 	if p := guard(func() {
 		for _, val := range c10Valuations() {
@@ -222,7 +230,39 @@ func init() {
 			o["perr"] = errStr(err)
 			return o
 		}
-		c10Split(o, e, m)
+		// The property is about every call, not only the first one on a fresh parse: the SAME
+		// parsed expression is split three times, then a freshly parsed one once more.  The
+		// printed condition is recorded before the first and after every call.
+		printed := func(x influxql.Expr) string {
+			var s string
+			if p := guard(func() { s = x.String() }); p != "" {
+				return "panic: " + p
+			}
+			return s
+		}
+		o["p0"] = printed(e)
+		c10SplitInto(o, e, m, true)
+		o["p1"] = printed(e)
+		more := make([]interface{}, 0, 3)
+		for i := 2; i <= 3; i++ {
+			k := M{"call": strconv.Itoa(i)}
+			c10SplitInto(k, e, m, false)
+			k["post"] = printed(e)
+			more = append(more, k)
+		}
+		k := M{"call": "fresh"}
+		var e2 influxql.Expr
+		if p := guard(func() { e2, err = influxql.ParseExpr(text) }); p != "" {
+			k["panic"] = p
+		} else if err != nil {
+			k["err"] = "parse: " + errStr(err)
+		} else {
+			k["pre"] = printed(e2)
+			c10SplitInto(k, e2, m, false)
+			k["post"] = printed(e2)
+		}
+		more = append(more, k)
+		o["more"] = more
 		return o
 	}})
 }
